@@ -146,7 +146,10 @@ def apply(obj, h, tmpdir, counter):
     if op == "from_pandas":
         return dd.from_pandas(obj, npartitions=arg)
     if op == "dask_filter":
-        return obj[obj["v"] >= 1] if "v" in obj.columns else obj.map_partitions(lambda d: d)
+        if "v" in obj.columns:
+            return obj[obj["v"] >= 1]
+        labels = obj.index.to_series()
+        return obj[labels == labels]                     # a genuine row selection (boolean Dask series) on a frame without the value column
     if op == "dask_cx":
         return obj.cx[-100:100, -100:100]
     if op == "dask_persist":
@@ -266,6 +269,13 @@ def conforms(got, want, obj, cols):
         return False, f".geometry.name is {got['active']!r}, expected {want['active']!r}"
     if kind == "dask" and got["parts"] != [want["active"]]:
         return False, f"active geometry inside the partitions {got['parts']}, expected {[want['active']]}"
+    if kind == "dask":
+        # frame level and partition level must agree for every frame Dask derives with an inferred meta (sentence 1 of the property:
+        # ".geometry ... and, identically, inside every partition"); the identity map_partitions is the plainest such derivation
+        m = project(obj.map_partitions(lambda d: d))
+        if m["kind"] == "dask" and [m["active"]] != m["parts"]:
+            return False, (f"after map_partitions(identity) the Dask frame reports active geometry {m['active']!r} while its partitions "
+                           f"compute with {m['parts']}")
     # which column do spatial operations really use?
     if "v" in got["cols"]:
         va, vb = which_geometry_used(obj, cols)
